@@ -147,6 +147,10 @@ def compile_stmt_case(compilers: dict, case: dict) -> dict:
                 c.transformer.il_ops_holder.hybrid_op_count += 1
             for name, ret, params, body in case.get("subs", []):
                 c.add_sub_routine(name, ret, params, body)
+            # operand events of the sub-routine bodies do not belong to the statement
+            del tr.ops_added[:]
+            del tr.ops_removed[:]
+            del tr.hyb[:]
             out = c.compile_c_stmt(case["text"])
         res["ok"] = True
         res["rzil"] = out
